@@ -1,7 +1,7 @@
-\* round trip: up to 2 writes from 11 items into 5 capacities (exact-fit capacities: MC_Packer_bands), read back item by item, one free read
+\* round trip: up to 2 writes from 11 items into 6 capacities (exact-fit capacities: MC_Packer_bands), read back item by item, one free read
 CONSTANTS Items <- MC_Items_q
           FirstItems <- MC_Items_q
-          Caps = {0, 1, 3, 7, 16}
+          Caps = {0, 1, 2, 3, 7, 16}
           MaxW = 2
           ReadOps <- MC_ReadOps
           MaxFree = 1
